@@ -103,6 +103,13 @@ ROLE_TYPES = [{"e": "f32", "d": []}, {"e": "f32", "d": []}, {"e": "bool", "d": [
               {"e": "f32", "d": [2]}, {"e": "f32", "d": ["N"]}, {"e": "f32", "d": [None]}, {"e": "f32", "d": [0]}]
 
 
+def role_typed(ty) -> bool:
+    """Can an argument of this type be read directly by a node other than `lift` / `tcast`?"""
+    if "e" not in ty:
+        return False
+    return (ty["e"] == "f32" and len(ty["d"]) <= 1) or (ty["e"] == "bool" and ty["d"] in ([], [1])) or (ty["e"] == "i64" and ty["d"] == [1])
+
+
 # ----------------------------------------------------------------------------- generation
 CUSTOM_DOMAINS = [("verif.alpha", 1), ("org.verif.beta", 2), ("zeta.custom", 3)]
 
